@@ -46,6 +46,7 @@ VALUES: Dict[int, Any] = {
     27: ("True", "str", "boollike"), 28: ("false", "str", "boollike"),
     40: (1e308, "float", "finite"), 41: (5e-324, "float", "finite"), 42: (b"caf\xc3\xa9", "bytes", "utf8"),
     43: ("9" * 400, "str", "intlike"), 44: (int("9" * 400), "int", "big"), 45: ("\ud800", "str", "surrogate"),
+    46: (1.0, "float", "finite"), 47: (0.0, "float", "finite"), 48: (30, "int", "small"), 49: ("30", "str", "intlike"), 50: (30.5, "float", "finite"),
 }
 for _i in range(8):            # ints 0..7 -> vids 20..27?  keep 20..26 for ints 0..6
     if _i <= 6:
@@ -53,7 +54,7 @@ for _i in range(8):            # ints 0..7 -> vids 20..27?  keep 20..26 for ints
 for _i in range(1, 6):         # requeue counters "1".."5" -> 31..35
     VALUES[30 + _i] = (str(_i), "str", "intlike")
 
-NAMES = ["a", "b", "c", "_retries", "max_retries", "retry_on_error", "X-Taskiq-requeue"]
+NAMES = ["a", "b", "c", "_retries", "max_retries", "retry_on_error", "X-Taskiq-requeue", "timeout"]
 
 
 def vals_table() -> List[Dict[str, str]]:
@@ -216,6 +217,10 @@ class ObsMw(TaskiqMiddleware):
         self.env.rec("seen", pt="mw", j=self.env.cur_j, tid=tid_code(message.task_id),
                      lab=lab_view({k: v for k, v in message.labels.items() if k != "_gen"}))
         return message
+
+    def post_execute(self, message: Any, result: Any) -> None:
+        self.env.rec("seen", pt="post", j=self.env.cur_j, tid=tid_code(message.task_id),
+                     lab=lab_view({k: v for k, v in message.labels.items() if k != "_gen"}))
 
 
 def normalize(cfg: Dict[str, Any]) -> Dict[str, Any]:
